@@ -344,7 +344,8 @@ pub fn run<G: Grp>(m: &mut Machine, name: &str, args: &[Val]) -> R<Out> {
         "rec_scalar" => ok1(Val::Int(G::P::recommended_wnaf_for_scalar(k(0)?) as i64)),
         "rec_num" => ok1(Val::Int(G::P::recommended_wnaf_for_num_scalars(n(0)? as usize) as i64)),
         "precomp3" => {
-            let mut pre = vec![G::A::zero(); 3];
+            // a reused (dirty) buffer is a legitimate argument: the routine is documented to set every entry
+            let mut pre = vec![G::A::one(); 3];
             a(0)?.precomp_3(&mut pre);
             ok1(Val::List(pre.into_iter().map(G::wa).collect()))
         }
@@ -353,7 +354,7 @@ pub fn run<G: Grp>(m: &mut Machine, name: &str, args: &[Val]) -> R<Out> {
             ok1(G::wp(a(0)?.mul_precomp_3(k(1)?, &pre)))
         }
         "precomp256" => {
-            let mut pre = vec![G::A::zero(); 256];
+            let mut pre = vec![G::A::one(); 256];
             a(0)?.precomp_256(&mut pre);
             ok1(Val::List(pre.into_iter().map(G::wa).collect()))
         }
@@ -371,7 +372,7 @@ pub fn run<G: Grp>(m: &mut Machine, name: &str, args: &[Val]) -> R<Out> {
                 "msm_pip" => ok1(G::wp(G::A::sum_of_products_pippinger(&pts, &refs, n(2)? as usize))),
                 _ => {
                     // table = concatenation of precomp_256 of every point (library routine)
-                    let mut pre = vec![G::A::zero(); 256 * pts.len()];
+                    let mut pre = vec![G::A::one(); 256 * pts.len()];
                     for (i, q) in pts.iter().enumerate() {
                         q.precomp_256(&mut pre[i * 256..(i + 1) * 256]);
                     }
